@@ -49,6 +49,13 @@ def optBytesOfHex (s : String) : Option (Option Bytes) :=
 
 def strBytes (s : String) : Bytes := s.toUTF8.toList
 
+open Lean in
+/-- `b!"abc"` : the bytes of a string literal as a literal `List UInt8` (kernel-reducible, unlike `strBytes`) -/
+macro "b!" s:str : term => do
+  let bytes := s.getString.toUTF8.toList
+  let elems : Array (TSyntax `term) ← bytes.toArray.mapM (fun b => `(($(quote b.toNat) : UInt8)))
+  `(([$elems,*] : List UInt8))
+
 /-- quantifier lifting used by the `decide`-style table lemmas (pattern P5) -/
 theorem forall_uint8_of_lt (P : UInt8 → Prop) (h : ∀ n, n < 256 → P (UInt8.ofNat n)) : ∀ c, P c := by
   intro c
